@@ -252,3 +252,26 @@ ALL = {
     "asl_state_Task_delegate.<locals>.on_response": on_response_contract,
     "asl_state_Wait": wait_contract, "asl_state_Wait.<locals>.on_timeout": on_timeout_contract,
 }
+
+
+def setup(P):
+    """Register everything the handler contracts need on a Property."""
+    P.use_contracts("arn", "engine")
+    E.register_paths_abstract(P.reg)
+    E.register_notify_callees(P.reg)
+    externals(P.reg)
+    P.spec_module("specs/asl.py")
+
+
+def add_handlers(P, tags, only=None):
+    """Verify the state handlers, keeping the clauses tagged for one of `tags` (plus all untagged obligations)."""
+    import re
+    for k, f in ALL.items():
+        if only is not None and k not in only:
+            continue
+        c = f()
+        if tags is not None:
+            labels = [l for l, _, _ in c.ensures]
+            if not any(set(re.findall(r"C\d\d", l.split(":")[0])) & set(tags) for l in labels if ":" in l):
+                continue
+        P.verify(E.NOTIFY + k, c, tags=tags)
